@@ -370,6 +370,8 @@ class Reader:
                 data = self.consume("STRING")[1]
                 data = unhexlify(data)
                 ins = ir.LiteralData(data, name)
+            elif a == "undefined":
+                ins = ir.Undefined(name, ty)
             elif self.at_keyword("rol") or self.at_keyword("ror"):
                 # Binop with an operator that is spelled as a word
                 op = self.parse_id()
